@@ -41,6 +41,10 @@ def hostile_steps(rng, s):
             st += [["send", s, "PASV"]]
             if rng.random() < 0.5:
                 st += [["dconnect", s]]
+    if rng.random() < 0.3:
+        # bad input arrives while the passive listener of that session is still being opened
+        st += [["send", s, "USER u2"], ["lgate", s, rng.choice(["prebind", "postbind"])], ["send", s, rng.choice(["PASV", "EPSV"])],
+               ["sendraw", s, rng.choice(kinds[:5])()], ["lrelease", s]]
     for _ in range(rng.choice([1, 2, 4])):
         st.append(["sendraw", s, rng.choice(kinds)()])
         if rng.random() < 0.3:
